@@ -64,6 +64,17 @@ def harness(cfg, nprior, npieces):
             elif c.get('times'):
                 from ..symx import CR
                 pts = [CR(Fraction(v), lift(Fraction(v))) for v in c['times']]
+            elif c['tol']:
+                # tolerance mode resolves every time to the grid of the tolerance: the law is claimed for resolved times
+                from .c03 import _ndigits
+                from ..symx import CR
+                scale = 10 ** _ndigits(c['tol'])
+                klo, khi = int(lo.v * scale), int(hi.v * scale)
+                ks = [E.input_int(f'k{i}', min(klo + i, khi), lo=klo, hi=khi) for i in range(npieces + 1)]
+                for p, q in zip(ks[:-1], ks[1:]):
+                    E.assume(p < q)
+                ks = [E.concretize_int(k, klo, khi) for k in ks]
+                pts = [CR(Fraction(k.v) / scale, lift(Fraction(k.v) / scale)) for k in ks]
             else:
                 pts = [E.input(f'x{i}', lo.v + span * Fraction(i + 1, npieces + 2)) for i in range(npieces + 1)]
                 E.assume(pts[0] >= lo); E.assume(pts[-1] <= hi)
@@ -384,6 +395,9 @@ def replay(data):
                 pts = [t0, inp['x1'], t1]
             elif cfg.get('times'):
                 pts = [float(Fraction(v)) for v in cfg['times']]
+            elif cfg['tol']:
+                from .c03 import _ndigits
+                pts = [inp[f'k{i}'] / 10 ** _ndigits(cfg['tol']) for i in range(r['b'] + 1)]
             else:
                 pts = [inp[f'x{i}'] for i in range(r['b'] + 1)]
             cols = []; labels = []; want_var = []
